@@ -309,6 +309,16 @@ Proof.
 Qed.
 End BR.
 
+(* the surviving history after a reorg is exactly the part of the history recorded below the reorg point *)
+Lemma map_filter_comm {A B} (g : A -> B) (p : B -> bool) (l : list A) : map g (filter (fun x => p (g x)) l) = filter p (map g l).
+Proof. induction l as [|x l IH]; [reflexivity|]. cbn [filter map]. destruct (p (g x)); cbn [map]; rewrite IH; reflexivity. Qed.
+Theorem reorg_history leafh st b :
+  hist_of leafh (st_db (reorg st b)) = filter (fun x => (fst (snd x) <? b)%N) (hist_of leafh (st_db st)).
+Proof.
+  unfold hist_of, reorg. cbn [st_db d_bridges].
+  exact (map_filter_comm (fun r => (leafh (snd r), (fst r, b_pos (snd r)))) (fun x => (fst (snd x) <? b)%N) (d_bridges (st_db st))).
+Qed.
+
 (* ---------- consequences for the processor model ---------- *)
 Section BRCor.
 Variable HT : nat.
